@@ -6,7 +6,7 @@
    Loops are solved by iteration to a post-fixed point (None = not reached within the fuel).
    Package-level variables are tracked flow-sensitively inside a function exactly like locals (this is what
    the implementation does, and what makes it blind to a callee that re-assigns them: the analysis also
-   computes whether any call happens while such a variable is tracked more precisely than its site). *)
+   computes whether a value tracked in this way across a call is ever used, a_gsafe). *)
 From Coq Require Import List Bool Arith PeanoNat.
 From NM Require Import Engine MiniGo.
 Import ListNotations.
@@ -25,7 +25,8 @@ Definition enc (s : asite) : site :=
 Inductive prod :=
   | PNil                      (* the literal nil, or an unassigned variable: always nil-able *)
   | PNever                    (* an allocation, or a value that passed a nil check *)
-  | PSite (s : asite).        (* a parameter, a call result or a package-level variable: nil-able iff the site is *)
+  | PSite (s : asite)         (* a parameter, a call result or a package-level variable: nil-able iff the site is *)
+  | PStale.                   (* marker: a package-level variable tracked across a call that may have re-assigned it *)
 
 Definition asite_eqb (s t : asite) : bool :=
   match s, t with
@@ -38,11 +39,15 @@ Definition prod_eqb (p q : prod) : bool :=
   match p, q with
   | PNil, PNil | PNever, PNever => true
   | PSite s, PSite t => asite_eqb s t
+  | PStale, PStale => true
   | _, _ => false
   end.
 
 Definition kind_of (p : prod) : kind :=
-  match p with PNil => KAlways | PNever => KNever | PSite s => KCond (enc s) end.
+  match p with PNil => KAlways | PNever | PStale => KNever | PSite s => KCond (enc s) end.
+
+(* a use of a value is covered by the soundness argument unless it may be such a stale package-level value *)
+Definition use_ok (ps : list prod) : bool := negb (existsb (prod_eqb PStale) ps).
 
 Definition aset := list prod.
 Definition env := list (var * aset).
@@ -65,30 +70,39 @@ Definition subset_b (a b : aset) : bool := forallb (fun p => existsb (prod_eqb p
 (* e1 below e2 on every variable either mentions *)
 Definition env_leb (e1 e2 : env) : bool :=
   forallb (fun x => subset_b (aget e1 x) (aget e2 x)) (keys e1 ++ keys e2).
+(* duplicate-free union of producer sets, duplicate-free list of variables *)
+Definition union (a b : aset) : aset := a ++ filter (fun p => negb (existsb (prod_eqb p) a)) b.
+Fixpoint dedup_vars (l : list var) : list var :=
+  match l with
+  | [] => []
+  | x :: l' => if existsb (var_eqb x) l' then dedup_vars l' else x :: dedup_vars l'
+  end.
 Definition join (e1 e2 : env) : env :=
-  map (fun x => (x, aget e1 x ++ aget e2 x)) (keys e1 ++ keys e2).
+  map (fun x => (x, union (aget e1 x) (aget e2 x))) (dedup_vars (keys e1 ++ keys e2)).
 Definition join_opt (o1 o2 : option env) : option env :=
   match o1, o2 with
   | None, o | o, None => o
   | Some e1, Some e2 => Some (join e1 e2)
   end.
 
-(* a condition: environment where it holds, environment where it fails, triggers of the dereferences in it *)
-Fixpoint acond (c : cond) (e : env) : env * env * list trigger :=
+(* a condition: environment where it holds, environment where it fails, triggers of the dereferences in it,
+   and whether every dereferenced value is covered *)
+Fixpoint acond (c : cond) (e : env) : env * env * list trigger * bool :=
   match c with
-  | COpaque => (e, e, [])
-  | CNonNil x => (aput e x [PNever], e, [])
-  | CDeref d x => (e, e, map (fun p => mk_trigger d p KAlways) (aget e x))
-  | CNot c1 => let '(et, ef, tr) := acond c1 e in (ef, et, tr)
+  | COpaque => (e, e, [], true)
+  | CNonNil x => (aput e x [PNever], e, [], true)
+  | CDeref d x => (e, e, map (fun p => mk_trigger d p KAlways) (aget e x), use_ok (aget e x))
+  | CNot c1 => let '(et, ef, tr, b) := acond c1 e in (ef, et, tr, b)
   | CAnd c1 c2 =>
-      let '(et1, ef1, tr1) := acond c1 e in
-      let '(et2, ef2, tr2) := acond c2 et1 in
-      (et2, join ef1 ef2, tr1 ++ tr2)
+      let '(et1, ef1, tr1, b1) := acond c1 e in
+      let '(et2, ef2, tr2, b2) := acond c2 et1 in
+      (et2, join ef1 ef2, tr1 ++ tr2, b1 && b2)
   | COr c1 c2 =>
-      let '(et1, ef1, tr1) := acond c1 e in
-      let '(et2, ef2, tr2) := acond c2 ef1 in
-      (join et1 et2, ef2, tr1 ++ tr2)
+      let '(et1, ef1, tr1, b1) := acond c1 e in
+      let '(et2, ef2, tr2, b2) := acond c2 ef1 in
+      (join et1 et2, ef2, tr1 ++ tr2, b1 && b2)
   end.
+Definition cond_true (c : cond) (e : env) : env := fst (fst (fst (acond c e))).
 
 (* writing into a package-level variable is a use of the written value at the variable's site *)
 Definition store_triggers (x : var) (a : aset) : list trigger :=
@@ -103,13 +117,17 @@ Fixpoint arg_triggers (e : env) (g : fname) (i : nat) (args : list atom_e) : lis
   | a :: args' => map (fun p => mk_trigger 0 p (KCond (enc (SParam g i)))) (prods_of_atom e a) ++ arg_triggers e g (S i) args'
   end.
 
-(* every package-level variable is, at this point, still (also) described by its site *)
-Definition globals_fresh (ng : nat) (e : env) : bool :=
-  forallb (fun k => existsb (prod_eqb (PSite (SGlobal k))) (aget e (VG k))) (seq 0 ng).
+(* at a call, a package-level variable that is no longer (also) described by its site becomes stale *)
+Definition fresh (e : env) (k : nat) : bool := existsb (prod_eqb (PSite (SGlobal k))) (aget e (VG k)).
+Fixpoint mark_stale (ng : nat) (e : env) : env :=
+  match ng with
+  | O => e
+  | S k => let e' := mark_stale k e in if fresh e k then e' else aput e' (VG k) (PStale :: aget e (VG k))
+  end.
 
 Record ares := { a_env : option env;      (* None: control never falls through *)
                  a_trig : list trigger;
-                 a_gsafe : bool }.         (* no call happened while a package-level variable was refined *)
+                 a_gsafe : bool }.         (* no stale package-level value is used *)
 
 Section Analyze.
   Variable ng : nat.             (* number of package-level variables *)
@@ -120,7 +138,7 @@ Section Analyze.
     match n with
     | O => None
     | S n' =>
-      match an_body (fst (fst (acond c e))) with
+      match an_body (cond_true c e) with
       | None => None
       | Some r =>
           match a_env r with
@@ -148,32 +166,33 @@ Section Analyze.
         end
     | SAssign x a =>
         let ps := prods_of_atom e a in
-        Some {| a_env := Some (aput e x ps); a_trig := store_triggers x ps; a_gsafe := true |}
+        Some {| a_env := Some (aput e x ps); a_trig := store_triggers x ps; a_gsafe := use_ok ps || negb (is_glob x) |}
     | SCall x g args =>
         let res := [PSite (SResult g)] in
-        Some {| a_env := Some (match x with Some y => aput e y res | None => e end);
+        let e' := mark_stale ng e in
+        Some {| a_env := Some (match x with Some y => aput e' y res | None => e' end);
                 a_trig := arg_triggers e g 0 args ++ match x with Some y => store_triggers y res | None => [] end;
-                a_gsafe := globals_fresh ng e |}
-    | SDeref d x => Some {| a_env := Some e; a_trig := map (fun p => mk_trigger d p KAlways) (aget e x); a_gsafe := true |}
+                a_gsafe := forallb (fun a => use_ok (prods_of_atom e a)) args |}
+    | SDeref d x => Some {| a_env := Some e; a_trig := map (fun p => mk_trigger d p KAlways) (aget e x); a_gsafe := use_ok (aget e x) |}
     | SIf c s1 s2 =>
-        let '(et, ef, trc) := acond c e in
+        let '(et, ef, trc, bc) := acond c e in
         match analyze fuel s1 et, analyze fuel s2 ef with
         | Some r1, Some r2 =>
             Some {| a_env := join_opt (a_env r1) (a_env r2); a_trig := trc ++ a_trig r1 ++ a_trig r2;
-                    a_gsafe := a_gsafe r1 && a_gsafe r2 |}
+                    a_gsafe := bc && a_gsafe r1 && a_gsafe r2 |}
         | _, _ => None
         end
     | SWhile c body =>
         match loop_inv (analyze fuel body) c fuel e with
         | None => None
         | Some (einv, r) =>
-            let '(_, ef, trc) := acond c einv in
-            Some {| a_env := Some ef; a_trig := trc ++ a_trig r; a_gsafe := a_gsafe r |}
+            let '(_, ef, trc, bc) := acond c einv in
+            Some {| a_env := Some ef; a_trig := trc ++ a_trig r; a_gsafe := bc && a_gsafe r |}
         end
     | SReturn a =>
         Some {| a_env := None;
                 a_trig := map (fun p => mk_trigger 0 p (KCond (enc (SResult f)))) (prods_of_atom e a);
-                a_gsafe := true |}
+                a_gsafe := use_ok (prods_of_atom e a) |}
     end.
 End Analyze.
 
